@@ -645,8 +645,344 @@ def _search_utils(ctx, rng):
 
 
 # ------------------------------------------------------------------------------------------------
+# correspondence (A): what the front end hands to the backend API, observed by wrapping backend methods
+
+def wrap_backend(log):
+    def wrap(backend):
+        def w(name, fn):
+            orig = getattr(backend, name, None)
+            if orig is None:
+                return
+            setattr(backend, name, fn(orig))
+
+        w("displacement", lambda orig: (lambda r, phi, mode: (log.append(["disp", float(r), float(phi), int(mode)]), orig(r, phi, mode))[1]))
+        w("cubic_phase", lambda orig: (lambda gamma, mode: (log.append(["cubic", float(gamma), int(mode)]), orig(gamma, mode))[1]))
+
+        def prep(orig):
+            def f(r, V, modes):
+                log.append(["prep", [float(x) for x in r], [[float(x) for x in row] for row in np.asarray(V)], [int(m) for m in (modes if not isinstance(modes, int) else [modes])]])
+                return orig(r, V, modes)
+            return f
+        w("prepare_gaussian_state", prep)
+
+        def homo(orig):
+            def f(phi, mode, shots=1, select=None, **kw):
+                val = orig(phi, mode, shots=shots, select=select, **kw)
+                log.append(["homo", float(phi), int(mode), None if select is None else float(select), float(np.ravel(val)[0])])
+                return val
+            return f
+        w("measure_homodyne", homo)
+
+        def ms(orig):
+            def f(mode, r, phi, r_anc, eta_anc):
+                val = orig(mode, r, phi, r_anc, eta_anc)
+                log.append(["ms", [float(r), float(phi), float(r_anc), float(eta_anc)], int(mode), float(val)])
+                return val
+            return f
+        w("mb_squeeze_single_shot", ms)
+    return wrap
+
+
+def gen_corr_spec(rng):
+    spec = gen_spec(rng)
+    for o in spec["ops"]:
+        if o["op"] == "Dgate":  # its displacement call would be indistinguishable from Xgate's in the log
+            o["op"], o["p"] = "Rgate", [o["p"][1]]
+        if o["op"] in ("Coherent", "DisplacedSqueezed") and spec["backend"] == "bosonic":
+            o["op"], o["p"] = "Squeezed", [0.2, 0.1]
+    return spec
+
+
+def F(x):
+    return coq.coq_float(x)
+
+
+def coq_ctx(h):
+    return "(mkH %s %s %s)" % (F(h), F(np.sqrt(h / 2)), F(np.sqrt(2 * h)))
+
+
+def coq_ops(spec, h):
+    """The program as model ops, parameters exactly the numbers make_op passes to the op constructors."""
+    s = math.sqrt(h / 2)
+    out = []
+    for o in spec["ops"]:
+        name = o["op"]
+        k = o["m"][0]
+        dg = coq.coq_bool(bool(o.get("dg")))
+        if name in ("Xgate", "Zgate", "Vgate"):
+            val = o["p"][0] * s ** POWERS[name][0]
+            out.append("@%s float %s %d %s" % ({"Xgate": "Xg", "Zgate": "Zg", "Vgate": "Vg"}[name], F(val), k, dg))
+        elif name == "Gaussian":
+            V = np.array(o["V"], dtype=float) * (s * s)
+            r = np.array(o["r"], dtype=float) * s
+            out.append("@%s float %s %s %s" % ("GaussDecomp" if o["decomp"] else "GaussDirect",
+                                              coq.coq_list([coq.coq_list(row, F) for row in V]), coq.coq_list(r, F), coq.coq_list(o["m"], str)))
+        elif name == "MeasureHomodyne":
+            sel = "None" if o["select"] is None else "(Some %s)" % F(o["select"] * s)
+            out.append("@Homo float %s %d %s" % (F(o["phi"]), k, sel))
+        elif name == "MSgate" and not o["avg"]:
+            out.append("@MSsingle float %s %d" % (coq.coq_list(o["p"], F), k))
+        else:
+            out.append("@Free float 0 (@nil float) %s" % coq.coq_list(o["m"], str))
+    return coq.coq_list(out)
+
+
+def close(a, b, tol=1e-12):
+    return abs(a - b) <= tol * max(1.0, abs(a), abs(b))
+
+
+def same_log(impl, model):
+    """impl: python log entries; model: parsed list of call constructors (CFree dropped).  Returns None or a message."""
+    if len(impl) != len(model):
+        return "different number of backend calls: impl %d, model %d" % (len(impl), len(model))
+    for a, b in zip(impl, model):
+        kind = {"disp": "CDisp", "cubic": "CCubic", "prep": "CPrep", "homo": "CHomo", "ms": "CMS"}[a[0]]
+        if not isinstance(b, tuple) or b[0] != kind:
+            return "call kinds differ: impl %s, model %s" % (a[0], b)
+        if kind == "CDisp":
+            ok = close(a[1], b[1]) and close(a[2], b[2]) and a[3] == b[3]
+        elif kind == "CCubic":
+            ok = close(a[1], b[1]) and a[2] == b[2]
+        elif kind == "CPrep":
+            ok = len(a[1]) == len(b[1]) and all(close(x, y) for x, y in zip(a[1], b[1])) and \
+                len(a[2]) == len(b[2]) and all(close(x, y) for ra, rb in zip(a[2], b[2]) for x, y in zip(ra, rb)) and a[3] == list(b[3])
+        elif kind == "CHomo":
+            sb = b[3]
+            sb = None if sb is None else sb[1]
+            ok = close(a[1], b[1]) and a[2] == b[2] and ((a[3] is None and sb is None) or (a[3] is not None and sb is not None and close(a[3], sb)))
+        else:
+            ok = all(close(x, y) for x, y in zip(a[1], b[1])) and a[2] == b[2]
+        if not ok:
+            return "arguments differ: impl %s, model %s" % (a, b)
+    return None
+
+
+def corr_frontend(ctx):
+    rng = ctx.rng
+    n_cases = ctx.budget(120, 1200)
+    cases = []
+    for _ in range(n_cases):
+        spec = gen_corr_spec(rng)
+        h = rng.choice(HBARS) if rng.random() < 0.6 else _r3(rng.uniform(0.3, 5.0))
+        log = []
+        try:
+            with Hbar(h):
+                res = run_spec(spec, h, wrap=wrap_backend(log))
+                gaussV = []
+                for o in spec["ops"]:
+                    if o["op"] == "Gaussian" and o["decomp"]:
+                        gaussV.append([float(x) for x in np.asarray(make_op(o, h).p[0]).ravel()])
+                outs = []
+                homo_modes = [o["m"][0] for o in spec["ops"] if o["op"] == "MeasureHomodyne"]
+                samples = {m: list(res.samples_dict.get(m, [])) for m in set(homo_modes)}
+                anc = res.ancillae_samples or {}
+        except Exception as e:
+            ctx.case({"corr": "frontend", "error": type(e).__name__}, bucket="corrA-error:" + type(e).__name__)
+            continue
+        # outcomes in program order
+        idx = {m: 0 for m in samples}
+        aidx = {}
+        for o in spec["ops"]:
+            if o["op"] == "MeasureHomodyne":
+                m = o["m"][0]
+                outs.append(["OHomodyne", float(np.ravel(samples[m][idx[m]])[0])])
+                idx[m] += 1
+            elif o["op"] == "MSgate" and not o["avg"]:
+                m = o["m"][0]
+                outs.append(["OAncilla", float(anc[m][aidx.get(m, 0)])])
+                aidx[m] = aidx.get(m, 0) + 1
+        draws = [e[-1] for e in log if e[0] in ("homo", "ms")]
+        cases.append((spec, h, log, gaussV, outs, draws))
+        ctx.case({"corr": "frontend", "backend": spec["backend"], "ops": [o["op"] for o in spec["ops"]], "h": h},
+                 nontrivial=has_hbar_op(spec) and h != 2, bucket="corrA:" + spec["backend"])
+    sf.hbar = 2
+    for si in range(0, len(cases), 300):
+        sh = cases[si:si + 300]
+        lines = ["From Coq Require Import List PrimFloat.", "Import ListNotations.", "From SFV Require Import C15.Model C15.Exec.",
+                 "Eval vm_compute in ["]
+        items = []
+        for spec, h, log, gaussV, outs, draws in sh:
+            items.append("run_rec %s %s %s %s" % (coq_ctx(h), F(HALFPI), coq_ops(spec, h), coq.coq_list(draws, F)))
+        lines.append(";\n".join(items) + "].")
+        ok, vals, raw = ctx.coq_eval("cases_frontend_%d" % (si // 300), "\n".join(lines))
+        if not ok:
+            ctx.obligation("correspondence:frontend:shard%d" % (si // 300), False, raw)
+            return
+        for (spec, h, log, gaussV, outs, draws), mv in zip(sh, vals[0]):
+            mlog, mouts = mv
+            mfree = [c for c in mlog if isinstance(c, tuple) and c[0] == "CFree" and c[1] == 99]
+            mcalls = [c for c in mlog if not (isinstance(c, tuple) and c[0] == "CFree")]
+            msg = same_log(log, mcalls)
+            if msg is None:
+                if len(mfree) != len(gaussV) or any(len(a[2]) != len(b) or not all(close(x, y) for x, y in zip(a[2], b)) for a, b in zip(mfree, gaussV)):
+                    msg = "Gaussian.p[0] (V / (hbar/2)) differs: impl %s, model %s" % (gaussV, [a[2] for a in mfree])
+            if msg is None:
+                mo = [[o[0], o[1]] for o in mouts]
+                if len(mo) != len(outs) or any(a[0] != b[0] or not close(a[1], b[1], 1e-10) for a, b in zip(outs, mo)):
+                    msg = "measurement values differ: impl %s, model %s" % (outs, mo)
+            ctx.traces += 1
+            if msg is not None:
+                tie_broken(ctx, "corr:frontend", msg, spec, h)
+
+
+def tie_broken(ctx, sig, msg, spec, h):
+    """Model and implementation differ: evaluate the property's own predicate there first."""
+    h2 = 2.0 if h != 2 else 0.5
+    try:
+        bad, _ = compare_pair(spec, h, h2)
+    except Exception:
+        bad = []
+    for name, v1, v2 in bad:
+        ctx.counterexample(signature(spec, name), "%s on the %s backend is not hbar-independent: hbar=%s gives %s, hbar=%s gives %s" % (name, spec["backend"], h, v1, h2, v2),
+                           {"check": "pair", "spec": spec, "h1": h, "h2": h2, "obs": name})
+    ctx.disagreement(sig, msg, {"check": "pair", "spec": spec, "h1": h, "h2": h2, "obs": "corr"})
+    sf.hbar = 2
+
+
+# correspondence (B): state-object formulas on generated backend data
+
+def corr_states(ctx):
+    rng = ctx.rng
+    n_cases = ctx.budget(150, 1500)
+    cases = []
+    for _ in range(n_cases):
+        n = rng.randint(1, 3)
+        mu2, cov2 = rand_sympl_cov(rng, n)
+        h = rng.choice(HBARS) if rng.random() < 0.6 else _r3(rng.uniform(0.3, 5.0))
+        k = rng.randrange(n)
+        phi = draw(rng, "a")
+        al = [complex(_r3(rng.uniform(-0.8, 0.8)), _r3(rng.uniform(-0.8, 0.8))) for _ in range(n)]
+        with Hbar(h):
+            st = BaseGaussianState((np.array(mu2), np.array(cov2)), n)
+            mu, cov = st.means().copy(), st.cov().copy()
+            impl = list(mu) + list(cov.ravel())
+            d = st.displacement([k])[0]
+            impl += [d.real, d.imag]
+            impl += list(st.mean_photon(k))
+            impl += list(st.quad_expectation(k, phi))
+            x, p = mu[k], mu[n + k]
+            vxx, vxp, vpp = cov[k, k], cov[k, n + k], cov[n + k, n + k]
+            extra = None
+            if n == 1:
+                fid = float(st.fidelity_coherent(np.array(al)))
+                par = float(st.parity_expectation([0]))
+                numsq = float(np.exp(-(mu @ np.linalg.inv(cov) @ mu)))
+                det = float(np.linalg.det(cov))
+                st.is_coherent(0)
+                store = list(st.cov().ravel())
+                extra = (fid, par, numsq, det, store)
+        c = coq_ctx(h)
+        terms = ["st_mu FF %s %s" % (c, F(v)) for v in mu2]
+        terms += ["st_cov FF %s %s" % (c, F(v)) for row in cov2 for v in row]
+        terms += ["st_alpha FF %s %s" % (c, F(x)), "st_alpha FF %s %s" % (c, F(p))]
+        terms += ["mean_photon_mean FF %s %s %s %s %s" % (c, F(x), F(p), F(vxx), F(vpp)),
+                  "mean_photon_var FF %s %s %s %s %s %s" % (c, F(x), F(p), F(vxx), F(vxp), F(vpp))]
+        terms += ["quad_mean FF %s %s %s %s" % (F(np.cos(phi)), F(np.sin(phi)), F(x), F(p)),
+                  "quad_var FF %s %s %s %s %s" % (F(np.cos(phi)), F(np.sin(phi)), F(vxx), F(vxp), F(vpp))]
+        if extra is not None:
+            fid, par, numsq, det, store = extra
+            terms += ["fid_prefsq FF %s %s %s %s" % (c, F(vxx), F(vxp), F(vpp)),
+                      "fid_expo FF %s %s %s %s %s %s %s %s" % (c, F(al[0].real), F(al[0].imag), F(x), F(p), F(vxx), F(vxp), F(vpp)),
+                      "parity_sq FF %s 1 %s %s" % (c, F(numsq), F(det))]
+            terms += ["nth %d (concat (is_coherent_1mode_store FF %s %s)) 0%%float" % (i, c, coq.coq_list([coq.coq_list(row, F) for row in cov])) for i in range(4)]
+        cases.append((n, h, impl, extra, "[" + "; ".join(terms) + "]", {"n": n, "h": h, "mu2": mu2, "cov2": cov2, "k": k, "phi": phi}))
+        ctx.case({"corr": "state", "n": n, "h": h, "k": k}, nontrivial=h != 2, bucket="corrB:gauss%d" % n)
+    sf.hbar = 2
+    for si in range(0, len(cases), 300):
+        sh = cases[si:si + 300]
+        text = "\n".join(["From Coq Require Import List PrimFloat.", "Import ListNotations.", "From SFV Require Import C15.Model C15.Exec.",
+                          "Eval vm_compute in [", ";\n".join(x[4] for x in sh) + "]."])
+        ok, vals, raw = ctx.coq_eval("cases_state_%d" % (si // 300), text)
+        if not ok:
+            ctx.obligation("correspondence:state:shard%d" % (si // 300), False, raw)
+            return
+        for (n, h, impl, extra, _, info), mv in zip(sh, vals[0]):
+            mv = [float(v) for v in mv]
+            base = mv[:len(impl)]
+            msg = None
+            names = ["means[%d]" % i for i in range(2 * n)] + ["cov[%d]" % i for i in range(4 * n * n)] + \
+                ["displacement.re", "displacement.im", "mean_photon.mean", "mean_photon.var", "quad_expectation.mean", "quad_expectation.var"]
+            for nm, a, b in zip(names, impl, base):
+                if not close(a, b, 1e-9):
+                    msg = "%s: impl %r, model %r" % (nm, a, b)
+                    break
+            if msg is None and extra is not None:
+                fid, par, numsq, det, store = extra
+                prefsq, expo, parsq = mv[len(impl):len(impl) + 3]
+                mstore = mv[len(impl) + 3:]
+                mf = math.sqrt(prefsq) * math.exp(expo)
+                if not close(fid, mf, 1e-8):
+                    msg = "fidelity_coherent: impl %r, model %r" % (fid, mf)
+                elif not close(par * par, parsq, 1e-8):
+                    msg = "parity_expectation^2: impl %r, model %r" % (par * par, parsq)
+                elif not all(close(a, b, 1e-9) for a, b in zip(store, mstore)):
+                    msg = "stored covariance after is_coherent(0): impl %r, model %r" % (store, mstore)
+            ctx.traces += 1
+            if msg is not None:
+                spec = {"backend": "gaussian", "n": n, "ops": [{"op": "Gaussian", "V": info["cov2"], "r": info["mu2"], "m": list(range(n)), "decomp": False, "dg": False}],
+                        "q": default_q(n, [info["k"]], info["phi"])}
+                tie_broken(ctx, "corr:state-formulas", "hbar=%s, %d modes: %s" % (h, n, msg), spec, h)
+    corr_fock_utils(ctx)
+
+
+def default_q(n, subset, phi=0.3):
+    return {"alpha": [[0.2, -0.1]] * n, "phi": phi, "fock": [1] + [0] * (n - 1), "grid": [0.0, 0.5, -0.7],
+            "A": [[0.0] * (2 * n) for _ in range(2 * n)], "d": [0.1] * (2 * n), "subset": subset}
+
+
+def corr_fock_utils(ctx):
+    """BaseFockState.quad_expectation and utils.states (basis='gaussian') against the model."""
+    from strawberryfields.utils import states as us
+    rng = ctx.rng
+    cases = []
+    for _ in range(ctx.budget(60, 600)):
+        cutoff = rng.randint(2, 6)
+        a = np.array([[complex(rng.uniform(-1, 1), rng.uniform(-1, 1)) for _ in range(cutoff)] for _ in range(cutoff)])
+        rho = a @ a.conj().T
+        rho = rho / np.trace(rho)
+        h = rng.choice(HBARS) if rng.random() < 0.6 else _r3(rng.uniform(0.3, 5.0))
+        phi = draw(rng, "a")
+        with Hbar(h):
+            st = BaseFockState(rho, 1, False, cutoff)
+            mean, var = st.quad_expectation(0, phi)
+        aa = np.diag(np.sqrt(np.arange(1, cutoff + 5)), 1)
+        xq = np.cos(phi) * (aa + aa.T) + np.sin(phi) * (-1j) * (aa - aa.T)
+        Q = float(np.trace((xq @ xq)[:cutoff, :cutoff] @ rho).real)
+        l = coq.coq_list(["(%s, %s, %s)" % (F(np.sqrt(i + 1)), F(rho[i, i + 1].real), F(rho[i, i + 1].imag)) for i in range(cutoff - 1)])
+        c = coq_ctx(h)
+        r, ph, rs = _r3(rng.uniform(0, 1)), draw(rng, "a"), _r3(rng.uniform(-0.7, 0.7))
+        al = r * np.exp(1j * ph)
+        coh = us.coherent_state(r, ph, basis="gaussian", hbar=h)
+        sq = us.squeezed_cov(rs, 0.0, hbar=h)
+        impl = [float(mean), float(var), float(coh[0][0]), float(coh[0][1]), float(coh[1][0, 0]), float(sq[0, 0]), float(sq[1, 1])]
+        term = "[fock_quad_mean FF %s %s %s %s; fock_quad_var FF %s %s %s %s %s; util_mean FF %s %s; util_mean FF %s %s; util_cov FF %s 1%%float; util_cov FF %s %s; util_cov FF %s %s]" % (
+            c, F(np.cos(phi)), F(np.sin(phi)), l, c, F(np.cos(phi)), F(np.sin(phi)), l, F(Q),
+            c, F(al.real), c, F(al.imag), c, c, F(np.exp(-2 * rs)), c, F(np.exp(2 * rs)))
+        cases.append((impl, term, h, cutoff))
+        ctx.case({"corr": "fock-utils", "cutoff": cutoff, "h": h, "phi": phi, "r": r, "rs": rs}, nontrivial=h != 2, bucket="corrB:fock-utils")
+    sf.hbar = 2
+    text = "\n".join(["From Coq Require Import List PrimFloat.", "Import ListNotations.", "From SFV Require Import C15.Model C15.Exec.",
+                      "Eval vm_compute in [", ";\n".join(x[1] for x in cases) + "]."])
+    ok, vals, raw = ctx.coq_eval("cases_fock_utils", text)
+    if not ok:
+        ctx.obligation("correspondence:fock-utils", False, raw)
+        return
+    names = ["fock quad_expectation mean", "fock quad_expectation var", "coherent_state mean x", "coherent_state mean p", "coherent_state cov", "squeezed_cov xx", "squeezed_cov pp"]
+    for (impl, _, h, cutoff), mv in zip(cases, vals[0]):
+        ctx.traces += 1
+        for nm, a, b in zip(names, impl, mv):
+            if not close(a, float(b), 1e-9):
+                ctx.disagreement("corr:" + nm.replace(" ", "-"), "hbar=%s cutoff=%d: %s: impl %r, model %r" % (h, cutoff, nm, a, float(b)),
+                                 {"check": "none", "h": h})
+                break
+
+
 def correspondence(ctx):
-    pass
+    try:
+        corr_frontend(ctx)
+        corr_states(ctx)
+    finally:
+        sf.hbar = 2
 
 
 def replay(ctx, data):
